@@ -39,8 +39,8 @@ def setup(tier):
 
 def budget(tier):
     if tier == "quick":
-        return {"cases": 1500, "workers": 8, "watchdog_s": 1500}
-    return {"cases": 80000, "workers": 16, "watchdog_s": 7200}
+        return {"cases": 12000, "workers": 8, "watchdog_s": 1800}
+    return {"cases": 480000, "workers": 16, "watchdog_s": 3600, "budget_s": 600}
 
 
 def gen_case(rng, tier):
@@ -131,7 +131,7 @@ def run_case(case):
                 try:
                     rows, _, _ = multi.evaluate(y, db)
                 except Exception as exc:  # noqa: BLE001
-                    if "Joins are not supported by the iteration engine" in str(exc):
+                    if "Joins are not supported by the iteration engine" in str(exc) or multi.prune_order_loss(y, exc):
                         continue
                     out["violations"].append({"kind": "round_trip_not_evaluable", "detail": f"{model.show(case['prog'])} via {B},{C}: {exc_str(exc)} tree {short(y, 300)}"})
                     continue
